@@ -344,3 +344,40 @@ def _after_first_rule_colon(t, ins, rule=None):
     if not m:
         return None
     return t[:m.end()] + ins + t[m.end():]
+
+
+# ---------------------------------------------------------------------------------------------
+# interaction templates: randomized compositions of features whose *combination* is delicate
+# (the random generator reaches each feature often, a given conjunction of four rarely)
+# ---------------------------------------------------------------------------------------------
+
+def interaction_grammar(rng: random.Random):
+    """a rule with predicate-guarded alternatives that is (a) tried inside a non-final ordered-choice alternative and
+    (b) the first element of a repetition outside any choice; plus a part entry for the shared rule"""
+    n = name
+    toks = ["K", "X", "Y", "A", "B", "C", "N", "I", "SEP", "Z"]
+    guarded_e = [concat(pred(1), n("A"), n("B"))]
+    if rng.random() < 0.5:
+        guarded_e.append(concat(pred(2), n("C")))
+    plain_e = [n("N")]
+    if rng.random() < 0.4:
+        plain_e.append(concat(n("I"), opt(n("B"))))
+    e_alts = guarded_e + plain_e
+    rng.shuffle(e_alts)
+    e_pratt = rng.random() < 0.35
+    if e_pratt:
+        e_body = alt(concat(n("e"), n("Z"), n("e")), *e_alts)
+    else:
+        e_body = alt(*e_alts)
+    loop = star if rng.random() < 0.6 else plus
+    sep = [n("SEP")] if rng.random() < 0.7 else []
+    t_alts = [concat(n("K"), n("e"), n("X")), concat(n("K"), n("e"), n("Y"))]
+    if rng.random() < 0.5:
+        t_alts.insert(1, concat(n("K"), n("e"), commit(), n("X"), n("X")))
+    t_alts.append(n("K"))
+    s_body = concat(loop(paren(concat(n("e"), *sep))), opt(n("t")))
+    rules = [("s", s_body, False), ("t", choice(*t_alts), False), ("e", e_body, False)]
+    parts = ["e"] if rng.random() < 0.5 else []
+    skip = ["Ws"] if rng.random() < 0.5 else []
+    g = _g(toks + skip, rules, skip=skip, parts=parts)
+    return g, {"profile": "interaction", "features": ["pred_user", "choice", "alt", "star", "shared_guarded_rule"] + (["pratt"] if e_pratt else []) + (["parts"] if parts else []), "skipped": skip}
